@@ -54,6 +54,7 @@ class Filter:
     """[x for x in xs if p(x)] == fn(xs) where fn is a shape-checked filter with keep-predicate `keep`"""
     fn: str
     keep: str                     # L1 Bool expression over `x`
+    args: dict = field(default_factory=dict)   # extra parameters of fn -> L1 expression over code variables
 
 
 @dataclass
